@@ -11,12 +11,15 @@ from . import common as cm
 from robotools.evotools import commands  # noqa: E402
 
 LABWARE = {
+    "p23": ("plate", 2, 3),
     "p22": ("plate", 2, 2),
     "p32": ("plate", 3, 2),
     "p83": ("plate", 8, 3),
     "t32": ("trough", 3, 2),
 }
-TIPSYMS = [1, 2, 3, 8, {"$tip": "T2"}, {"$tip": "Any"}]
+# ints are tip numbers, Tip members compare like their bit value: Tip.T3 == 4, and (Tip.T4, 5) is ascending by tip
+# number but descending by raw value
+TIPSYMS = [1, 2, 5, 8, {"$tip": "T2"}, {"$tip": "Any"}, 4, {"$tip": "T3"}, {"$tip": "T4"}]
 MAXV = 50
 
 
@@ -61,8 +64,7 @@ class Harness(cm.BaseB):
     id = "C13"
     rule = (
         "4 labware (plates 2x2, 3x2, 8x3, trough 3 virtual rows x 2) x all well sequences of length 1..3 over 5 wells "
-        "(3 of one column, 2 of another; repeats, any order) x all tip sequences of the same length over {1,2,3,8,"
-        "Tip.T2,Tip.Any} x volumes {scalar, pairwise distinct list, tuple} x {evo_aspirate, evo_dispense} through the "
+        "(3 of one column, 2 of another; repeats, any order) x all tip sequences of the same length over {1,2,4,5,8,Tip.T2,Tip.T3,Tip.T4,Tip.Any} x volumes {scalar, pairwise distinct list, tuple} x {evo_aspirate, evo_dispense} through the "
         "tracked EvoWorklist methods and the bare command functions; length mismatches; volume classes (> max_volume, "
         "negative, NaN, wrong length); grid {0,1,67,68,1.0} x site {0,1,128,129} x arm {0,1,2}; evo_wash: every "
         "parameter over {below range, bounds, above range, wrong type} with <= 2 (thorough 3) deviations from the "
@@ -76,12 +78,13 @@ class Harness(cm.BaseB):
     def chunks(self, tier):
         out = []
         for lw in LABWARE:
-            for n in (1, 2, 3):
+            for n in ((1, 2, 3) if lw in ("p83", "t32", "p23") else (1, 2)) if tier == "quick" else ((1, 2, 3, 4) if lw == "p83" else (1, 2, 3)):
                 ws = list(itertools.product(wells_of(lw), repeat=n))
                 step = max(1, len(ws) // 8)
                 for i in range(0, len(ws), step):
                     out.append({"k": "cmd", "lw": lw, "wells": ws[i : i + step]})
         out.append({"k": "args"})
+        out.append({"k": "alt"})
         for a in range(len(WASH_CLASSES)):
             out.append({"k": "wash", "a": a, "maxdev": 2 if tier == "quick" else 3})
         return out
@@ -91,9 +94,16 @@ class Harness(cm.BaseB):
             for ws in chunk["wells"]:
                 n = len(ws)
                 for tips in itertools.product(range(len(TIPSYMS)), repeat=n):
-                    for vk in ("scalar", "list", "tuple") if n > 1 else ("scalar", "list"):
+                    for vk in ("scalar", "list", "tuple") if n == 2 else ("scalar", "list"):
                         for op in ("evo_aspirate", "evo_dispense"):
                             yield {"k": "cmd", "lw": chunk["lw"], "wells": list(ws), "tips": list(tips), "vk": vk, "op": op, "via": "wl" if (n + tips[0]) % 2 == 0 or n == 3 else "fn"}
+        elif chunk["k"] == "alt":
+            # the same process addresses two labware with the same number of wells but another shape
+            for a, b in (("p32", "p23"), ("p23", "p32"), ("t32", "p23"), ("p23", "t32")):
+                for wa in wells_of(a)[:4]:
+                    for wb in wells_of(b)[:4]:
+                        for op in ("evo_aspirate", "evo_dispense"):
+                            yield {"k": "alt", "first": [a, wa], "lw": b, "wells": [wb], "tips": [0], "vk": "scalar", "op": op, "via": "wl"}
         elif chunk["k"] == "args":
             for op in ("evo_aspirate", "evo_dispense"):
                 for via in ("wl", "fn"):
@@ -124,6 +134,14 @@ class Harness(cm.BaseB):
 
     def one(self, case):
         return getattr(self, "one_" + case["k"])(case)
+
+    def one_alt(self, case):
+        cm.clear_caches()
+        a, wa = case["first"]
+        lw, geo = build(a)
+        self.execute(case["op"], "wl", lw, geo, [wa], [1], 10.0)
+        o, key, V = self.one_cmd(dict(case, k="cmd"))
+        return "alt:" + o, key, [(c + "/order-dependent", f"after a command on {a}.{wa}: {d}") for c, d in V]
 
     # -------------------------------------------------------------- commands vs tracking
     def execute(self, op, via, lw, geo, wells, tips, vols, lc="LC", pos=(30, 2), arm=0):
